@@ -380,6 +380,9 @@ def _keytext(e):
         return repr(e.value)
     if isinstance(e, ast.Name):
         return '$' + e.id
+    if isinstance(e, ast.Subscript) and isinstance(e.value, ast.Name) and \
+            isinstance(e.slice, ast.Constant):
+        return '$' + e.value.id + '[' + repr(e.slice.value) + ']'
     return None
 
 
